@@ -30,7 +30,11 @@ def test_image(path):
         {"kind": "file", "name": b"b", "data": b"tail only" * 30, "uid": 7, "xattrs": {b"user.two": b"22"}},
         {"kind": "file", "name": b"c", "data": b"\0" * 4096 + b"zz" * 100, "gid": 9},
         {"kind": "dir", "name": b"d", "mode": 0o700, "xattrs": {b"trusted.t": b"ttt"},
-         "children": [{"kind": "slink", "name": b"s", "target": b"../a"}, {"kind": "fifo", "name": b"p"}]}]}
+         "children": [{"kind": "slink", "name": b"s", "target": b"../a"}, {"kind": "fifo", "name": b"p"}]},
+        # an inode table of more than 64 KiB on disk: the directories below have inode references that need more than 32 bit
+        {"kind": "dir", "name": b"z", "mode": 0o755, "children": [
+            {"kind": "dir", "name": b"sub%02d" % i, "mode": 0o755,
+             "children": [{"kind": "slink", "name": b"l%03d" % j, "target": b"target/%02d/%03d/padpadpad" % (i, j)} for j in range(150)]} for i in range(20)]}]}
     raw, _ = sqfsimg.encode(root, {"frag": True, "block_size": 4096})
     open(path, "wb").write(raw)
 
